@@ -24,8 +24,8 @@ LEVEL = "exploration"
 MOD = "mc.props.c17"
 
 NS = 'xmlns="http://www.w3.org/2000/svg" xmlns:xlink="http://www.w3.org/1999/xlink"'
-KINDS = ["U", "GU", "CP", "CPU", "LG", "SC", "SF", "S", "SY"]
-SLOT = {"U": "href", "GU": "href", "CP": "clip", "CPU": "href", "LG": "href", "SC": "clip", "SF": "fill", "S": None, "SY": None}
+KINDS = ["U", "GU", "GUU", "CP", "CPU", "LG", "SC", "SF", "S", "SY"]
+SLOT = {"U": "href", "GU": "href", "GUU": "href", "CP": "clip", "CPU": "href", "LG": "href", "SC": "clip", "SF": "fill", "S": None, "SY": None}
 CPU_BUDGET = 4.0
 
 
@@ -42,6 +42,8 @@ def node_xml(i, kind, target):
         return f'<use id="{nid}"{href} x="{i + 1}" y="2"/>'
     if kind == "GU":
         return f'<g id="{nid}" opacity=".9"><rect x="{x}" y="5" width="8" height="8"/><use{href} x="3"/></g>'
+    if kind == "GUU":
+        return f'<g id="{nid}"><use{href} x="3"/><use{href} y="3"/><use{href} x="6" y="6"/><rect x="{x}" y="5" width="4" height="4"/></g>'
     if kind == "CP":
         return f'<clipPath id="{nid}"{clip}><rect x="{x - 5}" y="0" width="40" height="40"/></clipPath>'
     if kind == "CPU":
@@ -93,7 +95,7 @@ def has_cycle(kinds, targets):
 def graph_cases(tier):
     ns = [1, 2] if tier == "quick" else [1, 2, 3]
     for n in ns:
-        kind_alpha = KINDS if n <= 2 else ["U", "GU", "CP", "CPU", "LG", "SC", "SF"]
+        kind_alpha = KINDS if n <= 2 else ["U", "GU", "GUU", "CP", "CPU", "LG", "SC", "SF"]
         for kinds in itertools.product(kind_alpha, repeat=n):
             opts = [target_options(i, n, k) for i, k in enumerate(kinds)]
             if n <= 2:
@@ -113,6 +115,9 @@ def chain_docs(tier):
         docs.append(("use-cycle", f'<svg {NS} viewBox="0 0 100 100"><defs>{cyc}</defs><use xlink:href="#u0"/></svg>'))
         cyc = "".join(f'<g id="u{i}"><rect width="2" height="2"/><use xlink:href="#u{(i + 1) % L}" x="1"/></g>' for i in range(L))
         docs.append(("group-use-cycle", f'<svg {NS} viewBox="0 0 100 100"><defs>{cyc}</defs><use xlink:href="#u0"/></svg>'))
+        for fan in (2, 3):
+            cyc = "".join(f'<g id="u{i}"><rect width="2" height="2"/>' + f'<use xlink:href="#u{(i + 1) % L}" x="1"/>' * fan + "</g>" for i in range(L))
+            docs.append(("branching-use-cycle", f'<svg {NS} viewBox="0 0 100 100"><defs>{cyc}</defs><use xlink:href="#u0"/></svg>'))
         cl = "".join(f'<clipPath id="c{i}" clip-path="url(#c{(i + 1) % L})"><rect width="{50 - i}" height="50"/></clipPath>' for i in range(L))
         docs.append(("clip-cycle", f'<svg {NS} viewBox="0 0 100 100"><defs>{cl}</defs><rect width="80" height="80" clip-path="url(#c0)"/></svg>'))
         gr = "".join(f'<linearGradient id="g{i}" xlink:href="#g{(i + 1) % L}"/>' for i in range(L))
@@ -234,7 +239,7 @@ def evaluate(case):
             if label == "graph":
                 use_cycle = False
                 ks, ts = meta["kinds"], meta["targets"]
-                sig["use_in_cycle"] = any(k in ("U", "GU", "CPU") for k in ks) and meta["cycle"]
+                sig["use_in_cycle"] = any(k in ("U", "GU", "GUU", "CPU") for k in ks) and meta["cycle"]
             viols.append({"sig": sig, "case": {"fam": "one", "doc": doc, "label": label}, "detail": {"why": why, "meta": meta}})
         elif why:
             outs["more-violations"] += 1
@@ -347,7 +352,7 @@ def run(run):
         "E3: all reference graphs with n <= 2 (quick) / 3 (thorough) nodes over kinds " + repr(KINDS) + " with every reference slot in {absent, dangling, itself, each other node} "
         "and nodes placed inside/outside defs; use / group-use / clip-path / gradient-href chains and cycles of length 1-3 (1-5), doubling chains of depth 1-4 (1-6); "
         f"{len(malformed_docs())} malformed-value documents (each numeric attribute x " + repr(BADVALS) + "); 7 DOCTYPE/entity documents in a fresh interpreter under an open() monitor. "
-        f"Each case: sandboxed fork, {CPU_BUDGET}s CPU-time budget (ITIMER_VIRTUAL), 2 GiB address space. Oracle: verdict in {{returned (must satisfy R4), raised}}; TIMEOUT/MEMORY/CRASH are violations; "
+        f"Each case: sandboxed fork, {CPU_BUDGET}s CPU-time budget (ITIMER_VIRTUAL), 1 GiB address space. Oracle: verdict in {{returned (must satisfy R4), raised}}; TIMEOUT/MEMORY/CRASH are violations; "
         "no canary file opened, no canary content in output. Non-trivial = document with at least one reference / malformed value / entity."
     )
     run.assumptions = [
